@@ -6,7 +6,12 @@ every behaviour (exhaustive to depth 5, simulated to depth 10) is replayed on a 
 with two documents: after every full/delta reply the array the client rebuilt must equal a
 full request on a fresh server for the current text; a range request for every line interval
 must equal the fresh full result restricted to those lines.
-Geometry part: see geometry() — journals from Journal.tla with the lexeme table.
+Geometry part: journals of G from JournalGen.tla with the lexeme table (kind and exact UTF-16
+span of every lexeme): tokens in document order without overlap, inside their line, never
+splitting a surrogate pair, type inside the legend, each covering exactly one lexeme of the
+kind its type denotes (a code with its parentheses, a quoted commodity with its quotes, an
+operator on the operator, a tag name with or without its colon); range requests for five line
+intervals equal the full result restricted to those lines.
 """
 import json
 
@@ -80,6 +85,8 @@ def main(args):
     if args.replay:
         with open(args.replay) as f:
             rp = json.load(f)
+        if rp["case"]["family"] == "geometry":
+            return replay_geometry(run, rp)
         hs = [(rp["case"]["family"], rp["case"]["history"])]
     else:
         hs = protocol_histories(run)
@@ -90,7 +97,11 @@ def main(args):
         run.count(vf.digest(h), nt)
         for sig, what in evaluate(h, res):
             run.diverge(sig, what, {"family": fam, "history": h}, res)
-    run.traces_validated = len(hs)
+    ngeo = 0
+    if not args.replay or hs[0][0] == "geometry":
+        ngeo = geometry(run, args)
+    run.traces_validated = len(hs) + ngeo
+    run.extra["geometry_journals"] = ngeo
     run.sample({"history": hs[-1][1]})
     run.rule = ("one case per behaviour of SemTokens.tla (exhaustive to depth 4 [thorough 5] over edit/open/close/full/range/delta with current, older, "
                 "other-document and unknown result ids on two documents; simulated to depth 10..14); non-trivial = contains an edit and a delta request")
@@ -99,7 +110,186 @@ def main(args):
     run.finish(confirm=lambda d: confirm(run, d))
 
 
+def replay_geometry(run, rp):
+    c = rp["case"]["spec_case"]
+    for sig, what in geometry_one(run, c):
+        run.diverge(sig, what, rp["case"], None)
+    run.count("replay", True)
+    run.count("replay2", True)
+    run.sample({"lines": c["lines"]})
+    run.finish()
+
+
+def geometry_one(run, c):
+    text = jcommon.text_of(c, "LF", True)
+    res = run.harness("script", [{"id": "0", "files": {}, "workspace": False, "ops": [{"op": "open", "file": "doc.journal", "text": text}, {"op": "req", "file": "doc.journal", "kind": "semanticTokensFull"}]}])[0]
+    doc = c08.Doc(text)
+    lex = list(c["lex"])
+    while len(lex) < doc.nlines():
+        lex.append([])
+    return geometry_eval(doc, lex, res["steps"][1].get("reply") or [], True)
+
+
 def confirm(run, d):
+    if d["case"].get("family") == "geometry":
+        if d["sig"] == "range-not-restriction-of-full":
+            return True
+        return any(sig == d["sig"] for sig, _ in geometry_one(run, d["case"]["spec_case"]))
     h = d["case"]["history"]
     res = run.harness("semtok", [{"id": "0", "texts": TEXTS, "ops": h}])[0]
     return any(sig == d["sig"] for sig, _ in evaluate(h, res))
+
+
+# ====================================================================== geometry part
+import collections
+import os
+
+import jcommon
+import c08
+
+LEGEND_SIZE = 13
+KIND_OF_TYPE = {
+    0: {"account"}, 1: {"commodity"}, 2: {"payee"}, 3: {"date", "date2"}, 4: {"number", "amount", "costamount", "assertamount", "year"},
+    5: {"tagname"}, 6: {"directive"}, 7: {"code"}, 8: {"status"}, 9: {"comment"}, 11: {"operator", "pipe"}, 12: {"tagvalue"},
+}
+TYPE_NAME = ["account", "commodity", "payee", "date", "amount", "tag", "directive", "code", "status", "comment", "string", "operator", "tagValue"]
+
+
+def decode(data):
+    toks = []
+    line = col = 0
+    for i in range(0, len(data) - 4, 5):
+        dl, dc, ln, ty, mod = data[i:i + 5]
+        if dl:
+            line += dl
+            col = dc
+        else:
+            col += dc
+        toks.append((line, col, ln, ty, mod))
+    return toks
+
+
+def allowed_spans(lex, ty):
+    out = set()
+    for lx in lex:
+        k = lx["k"]
+        if ty == 10:
+            out.add((lx["c0"], lx["c1"]))      # free text: any lexeme the grammar treats as text
+            continue
+        if k in KIND_OF_TYPE.get(ty, ()):
+            out.add((lx["c0"], lx["c1"]))
+            if k == "tagname":
+                out.add((lx["c0"], lx["c1"] - 1))
+        if ty == 1 and k == "format":
+            t = lx["t"]
+            idx = [i for i, ch in enumerate(t) if ch not in "0123456789., "]
+            if idx:
+                a, b = idx[0], idx[-1] + 1
+                if t[a] == '"':
+                    b = t.rfind('"') + 1
+                out.add((lx["c0"] + len(t[:a].encode("utf-16-le")) // 2, lx["c0"] + len(t[:b].encode("utf-16-le")) // 2))
+        if ty == 4 and k == "format":
+            out.add(("within", lx["c0"], lx["c1"]))
+    return out
+
+
+def geometry_eval(doc, lex, data, strict):
+    divs = []
+    if len(data) % 5:
+        return [("token-array-length", "the data array has %d numbers" % len(data))]
+    toks = decode(data)
+    prev = None
+    for (l, c, n, ty, mod) in toks:
+        if prev is not None and ((l, c) <= (prev[0], prev[1]) ):
+            divs.append(("tokens-out-of-order", "token at %d:%d after token at %d:%d" % (l, c, prev[0], prev[1])))
+            break
+        if prev is not None and l == prev[0] and c < prev[1] + prev[2]:
+            divs.append(("tokens-overlap", "token at %d:%d overlaps the token at %d:%d of length %d on %r" % (l, c, prev[0], prev[1], prev[2], doc.lines[l] if l < doc.nlines() else None)))
+            break
+        prev = (l, c, n)
+        if l >= doc.nlines() or c + n > doc.linelen(l):
+            divs.append(("token-outside-line", "token %d:%d length %d, line has %s units" % (l, c, n, doc.linelen(l) if l < doc.nlines() else "no such line")))
+            break
+        if n == 0:
+            divs.append(("token-empty", "token of length 0 at %d:%d (%s) on %r" % (l, c, TYPE_NAME[ty] if ty < LEGEND_SIZE else ty, doc.lines[l])))
+            break
+        if doc.mid_surrogate(l, c) or doc.mid_surrogate(l, c + n):
+            divs.append(("token-splits-surrogate-pair", "token %d:%d length %d on %r" % (l, c, n, doc.lines[l])))
+            break
+        if ty >= LEGEND_SIZE:
+            divs.append(("token-type-outside-legend", "type %d at %d:%d" % (ty, l, c)))
+            break
+        if strict and l < len(lex):
+            al = allowed_spans(lex[l], ty)
+            ok = (c, c + n) in al or any(isinstance(x[0], str) and x[1] <= c and c + n <= x[2] for x in al)
+            if ty == 10 and not ok:
+                # free text (a sub-directive line such as "format 1,000.00 USD" is one piece of text): it must begin and end
+                # where lexemes or the line's content begin and end, never inside a lexeme
+                line = doc.lines[l]
+                first = len(line) - len(line.lstrip(" \t"))
+                last = len(line.rstrip(" \t").encode("utf-16-le")) // 2
+                starts = {lx["c0"] for lx in lex[l]} | {first}
+                ends = {lx["c1"] for lx in lex[l]} | {last}
+                ok = c in starts and (c + n) in ends
+            if not ok:
+                divs.append(("token-not-a-lexeme:" + TYPE_NAME[ty], "%s token %d:%d-%d covers %r; %s lexemes of that line are at %s on %r" % (
+                    TYPE_NAME[ty], l, c, c + n, c08.wcommon.u16len and doc.lines[l].encode("utf-16-le")[2 * c:2 * (c + n)].decode("utf-16-le", "replace"),
+                    TYPE_NAME[ty], sorted(x for x in al if not isinstance(x[0], str)), doc.lines[l])))
+    seen = set()
+    return [(s, w) for s, w in divs if not (s in seen or seen.add(s))]
+
+
+def geometry(run, args):
+    """journals of G with the lexeme table: token order / bounds / legend / one-lexeme coverage; range = full restricted"""
+    thorough = run.tier == "thorough"
+    cases = []
+    r = run.tlc_simulate_many("JournalGen", jcommon.gen_cfg("random", 8, True), 150 if not thorough else 3000, 2, procs=8)
+    seen = set()
+    for c in r:
+        k = json.dumps(c["lines"], ensure_ascii=False)
+        if k not in seen and c.get("eol", "LF") == "LF":
+            seen.add(k)
+            cases.append(c)
+    for fam, cap in (("headers", 300), ("postings", 300), ("pairs", 150)):
+        cs = [c for c in run.tlc("JournalGen", jcommon.gen_cfg(fam, 6, True), workers=8, timeout=2400).json if not c["trig"]]
+        cs = run.rng.sample(cs, min(len(cs), cap if not thorough else cap * 10))
+        cases += cs
+    hcs = []
+    for i, c in enumerate(cases):
+        text = jcommon.text_of(c, "LF", True)
+        n = len(c["lines"])
+        ops = [{"op": "open", "file": "doc.journal", "text": text}, {"op": "req", "file": "doc.journal", "kind": "semanticTokensFull"}]
+        ivs = [(0, 0), (0, n), (n // 2, n // 2), (1, max(1, n - 2)), (n - 1, n + 3)]
+        for a, b in ivs:
+            ops.append({"op": "req", "file": "doc.journal", "kind": "semanticTokensRange", "rangeStart": a, "rangeEnd": b})
+        hcs.append({"id": "g%d" % i, "files": {}, "workspace": False, "ops": ops, "_ivs": ivs})
+    results = run.harness("script", [{k: v for k, v in h.items() if k != "_ivs"} for h in hcs], timeout=3000)
+    table = collections.Counter()
+    for c, hc, res in zip(cases, hcs, results):
+        text = hc["ops"][0]["text"]
+        run.count(vf.digest(["geometry", c["lines"]]), True)
+        case = {"family": "geometry", "spec_case": c}
+        if "panic" in res:
+            run.diverge("panic", "server panicked: " + res["panic"][:300], case, None)
+            continue
+        doc = c08.Doc(text)
+        lex = list(c["lex"])
+        while len(lex) < doc.nlines():
+            lex.append([])
+        data = res["steps"][1].get("reply") or []
+        for sig, what in geometry_eval(doc, lex, data, True):
+            table[sig] += 1
+            run.diverge(sig, what, case, None)
+        full = decode(data)
+        for (a, b), st in zip(hc["_ivs"], res["steps"][2:]):
+            got = decode(st.get("reply") or [])
+            want = [t for t in full if a <= t[0] <= b]
+            if got != want:
+                table["range-not-restriction-of-full"] += 1
+                run.diverge("range-not-restriction-of-full", "range request for lines %d..%d returns %d tokens, the full result has %d on those lines; first difference %s" % (
+                    a, b, len(got), len(want), next(((x, y) for x, y in zip(got, want) if x != y), None)), case, None)
+                break
+    if os.environ.get("VERIF_TABLE"):
+        for k, n in sorted(table.items(), key=str):
+            print("TABLE", k, n)
+    return len(cases)
